@@ -22,6 +22,7 @@ from vf.oracles import ndft as O
 from vf.oracles import dft as ODFT
 
 SPEC = {
+    "deciding_monitors": ["fn:nufft", "fn:nufft_adjoint", "in:layout:F", "in:layout:strided", "in:complex64"],
     "rule": ("cases = (transform dims 1-3, grid extents odd/even, batch shape, coordinate class "
              "[random/on-grid/half-integer/clustered/out-of-range], image class [Gaussian/"
              "delta incl. edge and corner voxels/constant/single exponential], (oversamp, "
